@@ -318,7 +318,7 @@ func tarCases(lo, hi int) {
 
 func main() {
 	run = vx.Begin("C07", "exploration",
-		"(1) torrent names and path components from a hostile alphabet (.., ., empty, /, a/../.., padded dots, absolute, NUL, backslash, 300-byte and multi-byte names, invalid UTF-8, name.utf-8/path.utf-8 overrides, components equal after cleaning; all strings up to length 3 over {. / a space 0xff}) in single- and multi-file torrents added to sessions on a recording storage (every Storage.Open name checked against the root, duplicates detected) and (2) on the real file storage inside a sandbox tree with and without the torrent-id directory level (tree diff around add and remove); (3) tar archives with hostile entry names and link/dir type flags posted to /move-torrent of an RPC-enabled session (tree diff around the destination). distinct = distinct metainfos / entry lists")
+		"(1) torrent names and path components from a hostile alphabet (.., ., empty, /, a/../.., padded dots, absolute, NUL, backslash, 300-byte and multi-byte names, invalid UTF-8, name.utf-8/path.utf-8 overrides, components equal after cleaning; all strings up to length 3 over {. / a space 0xff}) in single- and multi-file torrents added to sessions on a recording storage (every Storage.Open name checked against the root, duplicates detected) and (2) on the real file storage inside a sandbox tree with and without the torrent-id directory level (tree diff around add and remove); (3) tar archives with hostile entry names and link/dir type flags posted to /move-torrent of an RPC-enabled session (tree diff around the destination); (4) info dictionaries with padding markers (BEP 47 attr, BitComet prefix), shared paths and hostile components parsed the way resume data of versions 1, 2 and 3 and moved torrents are (padding files shown or hidden), allocated on the recording storage: same Open-name oracle. distinct = distinct metainfos / entry lists")
 	logger.Disable()
 	switch vx.ChildRole() {
 	case "names":
@@ -329,12 +329,17 @@ func main() {
 		lo, hi := vx.ChildRange()
 		tarCases(lo, hi)
 		run.Finish(0)
+	case "legacy":
+		lo, hi := vx.ChildRange()
+		legacyCases(lo, hi)
+		run.Finish(0)
 	}
 	crash := func(res vx.ChildResult, k int, logp string) {
 		run.Violation("crash:"+vx.NormalisePanic(res.PanicText)+"|"+res.RainFrame, fmt.Sprintf("%s: client crashed: %s at %s (log %s)", res.OpenCase, res.PanicText, res.RainFrame, logp), map[string]any{"tail": res.Tail})
 	}
 	var wg sync.WaitGroup
-	wg.Add(2)
+	wg.Add(3)
+	go func() { defer wg.Done(); run.RunChildren("legacy", run.N(6000, 120000), 2, "legacy-", 50*time.Millisecond, crash) }()
 	go func() { defer wg.Done(); run.RunChildren("names", run.N(30000, 400000), 12, "names-", 200*time.Millisecond, crash) }()
 	go func() { defer wg.Done(); run.RunChildren("tar", run.N(1600, 40000), 4, "tar-", time.Second, crash) }()
 	wg.Wait()
